@@ -28,9 +28,21 @@ rec = struct.pack("<III", 7, 9, 3) + b"abcd" + struct.pack("<III", 7, 9, 3) + b"
 (OUT / "d25_unpack_dir_index.script").write_text("\n".join([
     "# Witness.d25_*", "unpack %d 1 %s" % (len(rec), rec.hex()), "unpack 5 0 " + rec[:5].hex(),
     "unpack 16 0 " + (struct.pack("<III", 7, 9, 0xFFFFFFFE) + b"abcd").hex()]) + "\n")
-# D17: two directories listing each other; a directory listing itself
-(OUT / "t2_d17_cycle.sqfs").write_bytes(F.graph_image([[1], [0]], [1, 2]).build())
-(OUT / "t2_d17_selfloop.sqfs").write_bytes(F.graph_image([[0]], [1]).build())
+# D17 / own-parent test: the smallest directory cycles, through basic (b) and extended (e) directory inodes.
+# "t4_" = run through every recursive tool mode (rdsquashfs -d / -u, sqfsdiff, sqfs2tar).
+for tag, ext in (("b", [False]), ("e", [True])):
+    (OUT / ("t4_cycle_self_%s.sqfs" % tag)).write_bytes(F.graph_image([[0]], [1], ext=ext).build())
+for a in (False, True):
+    for b in (False, True):
+        (OUT / ("t4_cycle_2_%s%s.sqfs" % ("be"[a], "be"[b]))).write_bytes(F.graph_image([[1], [0]], [1, 2], ext=[a, b]).build())
+# chain / -> d1 -> d2 -> d3 whose last directory lists the (extended) directory at depth k again, k = 1..3
+for k in (1, 2, 3):
+    ext = [False] * 4
+    ext[k] = True
+    (OUT / ("t4_cycle_reenter_ext_depth%d.sqfs" % k)).write_bytes(F.graph_image([[1], [2], [3], [k]], [1, 2, 3, 4], ext=ext).build())
+# the seeded shape: basic root -> extended "a" that lists itself; and a file whose inode number equals an ancestor's
+(OUT / "t4_cycle_ext_child_self.sqfs").write_bytes(F.graph_image([[1], [1]], [1, 2], ext=[False, True]).build())
+(OUT / "t4_file_inum_of_ancestor.sqfs").write_bytes(F.graph_image([[1], [-1]], [1, 2], 1, [False, True], [1], [True]).build())
 # D4 through the tools: valid image whose /f2 has a block word announcing 2 * block_size uncompressed bytes
 fg = F.sample_tree(random.Random(5), 4096)
 img = bytearray(fg.build())
